@@ -1193,6 +1193,10 @@ def check_list_and_presence_semantics(ctx, rep):
             gs = G.guards_at(cd, bi)
             if not any(g.op == "False" and g.a is not None and g.a.kind == "call" and strip_generics(g.a.v).endswith("Value::is_list") and g.a.args and re.fullmatch(r"_3\**", repr(g.a.args[0])) for g in gs):
                 good = False
+            # ... and under nothing else (an emptiness test on the list makes `!=` hold for an empty list)
+            extra = [g for g in gs if g.a is not None and not (g.a.kind == "call" and strip_generics(g.a.v).endswith("Value::is_list")) and not (g.a.kind == "discr" and re.fullmatch(r"discr:\(_2\**\)", repr(g.a)))]
+            if extra:
+                good = False
         if good:
             rep.ok("T-REDUCE", "cmp:list-literal-compared-whole", cd.where(), "element-wise comparison only when the literal is not a list")
         else:
